@@ -228,6 +228,7 @@ def run(ctx):
                 lines.append(f'hitzer {tok} {ks(kx)}')
                 plan.append(({**desc, 'kx': kx}, mv_to_dict(xi)))
     wrapper_pass(ctx)
+    coefficient_and_state_pass(ctx)
     out = ctx.drive(lines)
     if out is not None:
         nb = 0
@@ -299,6 +300,87 @@ def wrapper_pass(ctx):
                         ctx.violation('division-route', {**case, 'ky': yk}, str(qe)[:200], str(q)[:200], key=f'div:route:{route}')
                 except Exception as e:
                     ctx.violation('inverse-route-raises', case, str(exp)[:200], repr(e)[:200], key=f'inv:route:{route}:raises')
+
+
+def coefficient_and_state_pass(ctx):
+    """(a) operands whose coefficients are kingdon's own RationalPolynomial objects, and division inside a function registered
+    with symbolic=True (which computes with them) called with plain numbers: x * x.inv() = 1 and u / v = u * v.inv(), for single
+    blades, scalars and sparse operands in d = 2..4; (b) the inverse of a multivector that is updated in place between two
+    calls (array-valued, `x[i] = y`): the second inverse is the inverse of the current coefficients, and `a / x` keeps
+    agreeing with `a * x.inv()`"""
+    import numpy as np
+    from kingdon import MultiVector
+    from kingdon.polynomial import RationalPolynomial
+    rng = ctx.rng
+    def f_div(u, v): return u / v
+    def f_inv(u, v): return u * v.inv()
+    for sig in ([1, 1], [1, 1, 1], [1, 1, -1], [0, 1, 1, 1]):
+        alg = make_algebra(sig)
+        N = 2 ** alg.d
+        pats = [[0], [1], [N - 1], [3 % N], [0, N - 1], [1, 2 % N]]
+        for kx in pats:
+            kx = list(dict.fromkeys(kx))
+            # (a1) RationalPolynomial coefficients
+            x = MultiVector.fromkeysvalues(alg, tuple(kx), [RationalPolynomial.fromname(f'x{k}') for k in kx])
+            case = {'sig': sig, 'kx': kx, 'coefficients': 'RationalPolynomial symbols'}
+            ctx.case(case, tag='coefficients:RationalPolynomial')
+            try:
+                one = x * x.inv()
+                bad = {int(k): str(v) for k, v in zip(one.keys(), one.values()) if not ((k == 0 and v == 1) or (k != 0 and v == 0))}
+                if bad or 0 not in one.keys():
+                    ctx.violation('inverse', case, 'x * x.inv() == 1', str(bad)[:200] or 'no scalar part', key='inv:rational-polynomial-coefficients')
+            except ZeroDivisionError:
+                pass
+            except Exception as ex:
+                ctx.count('rational-polynomial-coefficients:raises:' + type(ex).__name__)
+            # (a2) division inside a symbolically registered function, called with numbers
+            for f in (f_div, f_inv):
+                ky = rng.choice(pats)
+                u = MultiVector.fromkeysvalues(alg, tuple(dict.fromkeys(ky)), [Fraction(rng.randint(1, 7)) for _ in dict.fromkeys(ky)])
+                v = MultiVector.fromkeysvalues(alg, tuple(kx), [Fraction(rng.choice((2, 3, 5, -7))) for _ in kx])
+                case = {'sig': sig, 'registered_symbolic': f.__name__, 'ku': list(u.keys()), 'kv': kx, 'vu': [str(c) for c in u.values()], 'vv': [str(c) for c in v.values()]}
+                ctx.case(case, tag='registered-symbolic-division')
+                try:
+                    exp = mv_to_dict(u * v.inv())
+                except ZeroDivisionError:
+                    continue
+                try:
+                    got = mv_to_dict(alg.register(symbolic=True)(f)(u, v))
+                except ZeroDivisionError:
+                    continue
+                except Exception as ex:
+                    ctx.count('registered-symbolic-division:raises:' + type(ex).__name__)
+                    continue
+                if got != exp:
+                    ctx.violation('division-route', case, str(exp)[:200], str(got)[:200], key='div:route:registered-symbolic')
+    # (b) in-place updates between two inverses
+    for sig in ([1, 1, 1], [1, 1, -1]):
+        alg = make_algebra(sig)
+        for container in ('list', 'ndarray'):
+            keys = (0, 3, 5)
+            mk = lambda: [np.array([float(rng.randint(1, 5)) for _ in range(3)]) for _ in keys]
+            arrs = mk()
+            X = MultiVector.fromkeysvalues(alg, keys, arrs if container == 'list' else np.array(arrs))
+            A = MultiVector.fromkeysvalues(alg, (1, 2), [2.0, 3.0])
+            case = {'sig': sig, 'container': container, 'keys': list(keys)}
+            first = X.inv(); A / X; X ** -1
+            new = MultiVector.fromkeysvalues(alg, keys, [float(rng.randint(6, 9)) for _ in keys])
+            X[1] = new
+            for form, thunk, ref in (('x.inv()', lambda: X * X.inv(), None), ('x**-1', lambda: X * X ** -1, None),
+                                     ('a / x vs a * x.inv()', lambda: A / X, lambda: A * X.inv())):
+                ctx.case({**case, 'form': form}, tag='inverse-after-inplace-update')
+                got = thunk()
+                gd = {int(k): np.asarray(v, dtype=float) for k, v in zip(got.keys(), got.values())}
+                if ref is None:
+                    ok = all(np.allclose(v, 1.0 if k == 0 else 0.0, atol=1e-9) for k, v in gd.items()) and 0 in gd
+                    exp_s = 'x * x.inv() == 1 at every index after x[1] = y'
+                else:
+                    r = ref()
+                    rd = {int(k): np.asarray(v, dtype=float) for k, v in zip(r.keys(), r.values())}
+                    ok = all(np.allclose(gd.get(k, 0.0), rd.get(k, 0.0), atol=1e-9) for k in set(gd) | set(rd))
+                    exp_s = 'a / x == a * x.inv() after x[1] = y'
+                if not ok:
+                    ctx.violation('inverse', {**case, 'form': form}, exp_s, str({k: v.tolist() for k, v in gd.items()})[:250], key='inv:stale-after-inplace-update')
 
 
 def MultiVector_tracer(alg, kx):
